@@ -208,8 +208,10 @@ func checkRoomID(res *eventV3) error {
 	if !isCreateEvent && !strings.HasPrefix(res.eventFields.RoomID, "!") {
 		return fmt.Errorf("gomatrixserverlib: room_id must start with !")
 	}
-	if !isCreateEvent {
-		// PDU.RoomID() panics on a room ID that does not parse, so refuse it here.
+	// PDU.RoomID() panics on a room ID that does not parse, so refuse it here.
+	// A create event has none, its room ID derives from the event; if it
+	// carries one all the same (see above), it has to be a room ID.
+	if !isCreateEvent || res.eventFields.RoomID != "" {
 		if _, err := spec.NewRoomID(res.eventFields.RoomID); err != nil {
 			return fmt.Errorf("gomatrixserverlib: invalid room ID %q: %w", res.eventFields.RoomID, err)
 		}
